@@ -299,6 +299,9 @@ impl TransformExtensionList {
                 }
                 current_tkey = Some(parse_tkey(subtag)?);
                 iter.next();
+            } else if slen == 1 {
+                // The next singleton ends the transform extension.
+                break;
             } else if current_tkey.is_some() {
                 if let Some(tval) = parse_tvalue(subtag)? {
                     current_tvalue.push(tval);
